@@ -90,8 +90,8 @@ def nuts_worker(ctx, nc, nd):
     sp = b['sp']
     ret = assume_ok(ev.ret_term)
     me = strip_generics(b['path'])
-    loops = [ls for ls in ev.vf.loops if ls.kind == 'for' and not ls.ctx and ls.owner == me]
     steps = ev.events(lambda e: e.key == 'nuts::NUTSChain::step')
+    loops = [ls for ls in ev.vf.loops if ls.kind == 'for' and not ls.ctx and any(e in ls.events for e in steps)]      # the loop that steps the chain (wherever it is written)
     if len(loops) != 1 or len(steps) != 1:
         ctx.unknown('C10.sib.nuts', A, 'loop', why='expected one run loop with one step (found %d loops, %d step sites)' % (len(loops), len(steps)), sp=sp)
         send_rules(ctx, 'C10.nuts', A, ev, None, sp)
